@@ -32,6 +32,13 @@ static void body(int t, int iters)
     int r = sb.invoke_sandbox_function(call_cb_n, cb, t, 1).UNSAFE_unverified();
     if (r != t + 1) g_bad++;
     cb.unregister();
+    {
+      static int app_objs[16];
+      auto a1 = sb.get_app_pointer(&app_objs[t]);
+      if ((uint64_t)a1.UNSAFE_sandboxed(sb) != 1) g_bad++; // a fresh sandbox object: its table starts at token 1
+      if (sb.lookup_app_ptr(a1.to_tainted()) != &app_objs[t]) g_bad++;
+      a1.unregister();
+    }
     sb.destroy_sandbox();
   }
 }
